@@ -1,17 +1,20 @@
 #!/bin/bash
 # usage: seedconfirm.sh <worktree> <patch> <demo_test.go> <pkg_rel_dir>
 # Confirms in the scratch worktree: with patch: existing tests pass and demo fails; without patch: demo passes.
+# The SRID stub is supplied through a build overlay (the file is empty at the pin).
 set -u
 WT=$1; PATCH=$2; DEMO=$3; PKG=$4
 export GOFLAGS=-mod=mod GOPROXY=off
 cd "$WT" || exit 2
+OV=$(mktemp /tmp/seedov-XXXXXX.json)
+echo "{\"Replace\":{\"$WT/sql/types/spatial_reference_systems.go\":\"/verif/stubs/spatial_reference_systems.go\"}}" > $OV
 git checkout -q -- . ; rm -f "$PKG/zz_demo_test.go"
 TESTS="./internal/strings/ ./internal/similartext/ ./sql/encodings/ ./sql/in_mem_table/ ./sql/sqlredact/ ./errguard/ ./internal/regex/ ./sql/planbuilder/dateparse/"
 git apply "$PATCH" || { echo "PATCH DOES NOT APPLY"; exit 2; }
-go build ./$PKG/ 2>&1 | tail -3
+go build -overlay $OV ./$PKG/ 2>&1 | tail -3
 if go test -count=1 $TESTS > /tmp/seed_existing.log 2>&1; then echo "existing tests with patch: PASS"; else echo "existing tests with patch: FAIL"; tail -5 /tmp/seed_existing.log; fi
 cp "$DEMO" "$PKG/zz_demo_test.go"
-if go test -count=1 -run 'Demo|Seed' ./$PKG/ > /tmp/seed_demo1.log 2>&1; then echo "demo with patch: PASS (unexpected)"; else echo "demo with patch: FAIL (expected)"; fi
+if go test -overlay $OV -vet=off -count=1 -run 'Demo|Seed' ./$PKG/ > /tmp/seed_demo1.log 2>&1; then echo "demo with patch: PASS (unexpected)"; else echo "demo with patch: FAIL (expected)"; fi
 git checkout -q -- .
-if go test -count=1 -run 'Demo|Seed' ./$PKG/ > /tmp/seed_demo2.log 2>&1; then echo "demo without patch: PASS (expected)"; else echo "demo without patch: FAIL (unexpected)"; tail -5 /tmp/seed_demo2.log; fi
-rm -f "$PKG/zz_demo_test.go"
+if go test -overlay $OV -vet=off -count=1 -run 'Demo|Seed' ./$PKG/ > /tmp/seed_demo2.log 2>&1; then echo "demo without patch: PASS (expected)"; else echo "demo without patch: FAIL (unexpected)"; tail -5 /tmp/seed_demo2.log; fi
+rm -f "$PKG/zz_demo_test.go" $OV
